@@ -5,3 +5,4 @@ pub mod dispatch;
 pub mod parsing;
 pub mod loops;
 pub mod promise;
+pub mod ctor;
